@@ -281,7 +281,40 @@ def known_length_longer(case, vio):
     return _first_gen(case) == "long" and vio.get("bucket", "").startswith("unenforced:long|")
 
 
-KNOWN = {"virtual_generated_longer_than_declared": known_length_longer}
+NOT_CONFORM = "generated array does not conform to expected form"
+
+
+def _observed_text(vio):
+    obs = vio.get("observed")
+    return obs[1] if isinstance(obs, list) and len(obs) > 1 and isinstance(obs[1], str) else ""
+
+
+def known_bitmasked_range_form(case, vio):
+    """Form::getitem_range() is the identity for every form but BitMaskedForm, yet RegularArray / RecordArray / ByteMaskedArray / UnmaskedArray
+    slice their contents: a BitMaskedArray below them becomes a ByteMaskedArray, which the predicted form of the lazy slice does not say"""
+    text = _observed_text(vio)
+    if not (case.get("part") == "virtual" and vio.get("bucket", "").startswith("errorclass:") and NOT_CONFORM in text):
+        return False
+    expected, _, generated = text.partition("but generated:")
+    return ('"BitMaskedArray"' in expected and '"ByteMaskedArray"' in generated
+            and K.any_node(case["desc"], lambda n: n["class"] == "BitMaskedArray"))
+
+
+def known_nested_virtual_slice_form(case, vio):
+    """a VirtualArray with a declared form whose generated array contains further VirtualArray nodes passes generate_and_check (compatibility
+    check) but the form predicted for its lazy field / range slice assumes the nodes are not virtual (option/indexed simplification)"""
+    text = _observed_text(vio)
+    if not (case.get("part") == "virtual" and vio.get("bucket", "").startswith("errorclass:") and NOT_CONFORM in text):
+        return False
+    _, _, generated = text.partition("but generated:")
+    paths = [tuple(w["path"]) for w in case["wraps"]]
+    nested_declared = any(w["declare_form"] and any(len(q) > len(w["path"]) and q[:len(w["path"])] == tuple(w["path"]) for q in paths) for w in case["wraps"])
+    return '"VirtualArray"' in generated and nested_declared
+
+
+KNOWN = {"virtual_generated_longer_than_declared": known_length_longer,
+         "virtual_range_form_bitmasked": known_bitmasked_range_form,
+         "virtual_slice_form_nested_virtual": known_nested_virtual_slice_form}
 
 
 def pre_exclude(case):
